@@ -49,6 +49,11 @@ func runC17(c *Ctx) {
 	lockOrderRules(c, "C17.R1", "C17.R2", nil)
 	c17R3(c, "C17.R3")
 	c17R4(c, "C17.R4")
+	// imported: "the user's single active record" needs lookup-or-create of the record (and of its sessions) to be one
+	// exclusive critical section — two first connections must not build two records
+	c.importing = "C15"
+	c15R1(c, "C15.R1")
+	c.importing = ""
 }
 
 // lockOrderRules evaluates acyclicity (ruleCycle) and self-edges (ruleSelf) on the class-level lock-order graph.
